@@ -1,7 +1,7 @@
 """C20 - reported progress is a proper weighted fraction: the STRUCTURAL clauses only.  DESIGN.md section C20.
 
-The arithmetic of the normalisation (float sums, int(w*1000) truncation) is not decided - that needs numeric exploration,
-another technique family.  What is decided is the part of the property whose truth is in the shape of the code:
+The float arithmetic of the normalisation (how large a tolerance still counts as "one") is not decided - that needs numeric
+exploration, another technique family.  What is decided is the part of the property whose truth is in the shape of the code:
 the given weights survive only behind a sum test AND a sign test, the replacement covers every stage with non-negative
 numerators that add up to the scale exactly (an identity over integers), the scale constant is used consistently, the
 per-stage fraction is |finished| / |same list|, and the total is a weighted sum over two stage sets selected by complementary
@@ -107,13 +107,114 @@ def negative_side(test: ast.AST, wl: Set[str]) -> Optional[str]:
     return None
 
 
+SUMMERS = ("sum", "reduce", "functools.reduce", "math.fsum")
+
+
+def summed_list(e: ast.AST, wl: Set[str]) -> Optional[ast.AST]:
+    """the argument that is summed by a sum()/reduce(add, ..)/fsum() call found in e, when it mentions a weight list"""
+    for x in ast.walk(e):
+        if isinstance(x, ast.Call) and call_name(x) in SUMMERS and x.args:
+            arg = x.args[-1] if call_name(x).endswith("reduce") else x.args[0]
+            if any(isinstance(y, ast.Name) and y.id in wl for y in ast.walk(arg)):
+                return arg
+    return None
+
+
+def base_lists(fn: ast.AST) -> Set[str]:
+    """the lists that receive the parsed weights directly (append of float(..['stage-weight'])), not copies derived from them"""
+    out: Set[str] = set()
+    for n in source.walk_own(fn):
+        if isinstance(n, ast.Call) and last_attr(n) == "append" and isinstance(n.func.value, ast.Name) and n.args:
+            a = n.args[0]
+            vals = [a] + ([v for v in match.assigned_value(fn, a.id)] if isinstance(a, ast.Name) else [])
+            if any(isinstance(x, ast.Constant) and x.value == "stage-weight" for v in vals for x in ast.walk(v)):
+                out.add(n.func.value.id)
+    return out
+
+
+def check_conversion(ctx, fn: ast.AST, where: str) -> None:
+    RID = "C20.R9-malformed-weight-is-missing"
+    convs = [c for c in source.calls_in(fn, include_nested=False) if call_name(c) == "float" and c.args and any(
+        isinstance(x, ast.Constant) and x.value == "stage-weight" for x in ast.walk(c.args[0]))]
+    ctx.floor(RID, len(convs), 1, "conversions float(<given stage weight>) in %s" % where)
+    tries = [t for t in source.walk_own(fn) if isinstance(t, ast.Try)]
+    for c in convs:
+        caught: Set[str] = set()
+        for t in tries:
+            if any(x is c for st in t.body for x in ast.walk(st)):
+                for h in t.handlers:
+                    if any(isinstance(x, ast.Raise) for st in h.body for x in ast.walk(st)):
+                        continue
+                    caught |= {"*"} if h.type is None else {source.src(x).split(".")[-1] for x in (h.type.elts if isinstance(h.type, ast.Tuple) else [h.type])}
+        everything = bool(caught & {"*", "Exception", "BaseException"})
+        for need in ("ValueError", "TypeError"):
+            ok = everything or need in caught
+            ctx.ob(RID, c, ok, "%s: %s of the conversion is handled (the weight counts as missing)" % (where, need) if ok else
+                   "%s: float(<given weight>) raises %s for %s and no handler around it catches that: the load aborts instead of treating "
+                   "the weight as missing" % (where, need, "a weight that is None or a list" if need == "TypeError" else "a string that is not a number"),
+                   construct="%s: float(weight) <- except %s" % (where, need))
+
+
+def sum_test_parts(t: ast.AST, wl: Set[str]) -> Optional[Dict[str, object]]:
+    """Recognised forms of 'the weights (do not) add up to one':
+       exact   : <expr with sum(W')> ==/!= <const>                      (W' may be a truncated copy of the weights)
+       tolerant: abs(sum(W) - 1) <=/</>/>= tol,  math.isclose(sum(W), 1, ...)
+    Returns {'form', 'not_one': edge label on which the sum is NOT one, 'list': summed expression, 'one': constant, 'tol': constant}."""
+    cp = match.compare_parts(t)
+    if cp:
+        l, op, r = cp
+        if isinstance(l, ast.Call) and call_name(l) == "abs" and l.args and isinstance(l.args[0], ast.BinOp) and isinstance(l.args[0].op, ast.Sub):
+            lst = summed_list(l.args[0].left, wl)
+            if lst is not None and isinstance(op, (ast.LtE, ast.Lt, ast.Gt, ast.GtE)):
+                return {"form": "tolerant", "not_one": "F" if isinstance(op, (ast.LtE, ast.Lt)) else "T", "list": lst,
+                        "one": const_num(l.args[0].right), "tol": const_num(r), "nan_safe": isinstance(op, (ast.LtE, ast.Lt))}
+        if isinstance(op, (ast.Eq, ast.NotEq)):
+            lst = summed_list(t, wl)
+            if lst is not None:
+                return {"form": "exact", "not_one": "T" if isinstance(op, ast.NotEq) else "F", "list": lst,
+                        "one": const_num(r) if const_num(r) is not None else const_num(l), "tol": 0, "nan_safe": True}
+    if isinstance(t, ast.Call) and call_name(t) in ("math.isclose", "isclose") and len(t.args) >= 2:
+        lst = summed_list(t.args[0], wl)
+        if lst is not None:
+            tol = [const_num(k.value) for k in t.keywords if k.arg == "abs_tol"]
+            return {"form": "tolerant", "not_one": "F", "list": lst, "one": const_num(t.args[1]), "tol": tol[0] if tol else 1e-9, "nan_safe": True}
+    return None
+
+
+def sum_not_one_side(t: ast.AST, wl: Set[str]) -> Optional[str]:
+    p = sum_test_parts(t, wl)
+    return p["not_one"] if p else None
+
+
+def check_sum_test(ctx, fn: ast.AST, where: str, sum_tests: List[Tuple[Node, str]], wl: Set[str], base: Set[str], resolution: float) -> None:
+    """R8: the sum test looks at the given weights themselves, with a tolerance finer than the resolution of the fallback weights."""
+    RID = "C20.R8-sum-test-on-the-given-weights"
+    ctx.ob(RID, fn, bool(sum_tests), "%s tests whether the given weights add up to one" % where if sum_tests else
+           "%s has no recognisable test of the sum of the given weights" % where, construct="%s: sum test present" % where, trivial=bool(sum_tests))
+    for (tn, _) in sum_tests:
+        p = sum_test_parts(tn.ast, wl)
+        lst = p["list"]
+        direct = isinstance(lst, ast.Name) and lst.id in base
+        ok = direct and p["one"] is not None and ((p["form"] == "tolerant" and p["one"] == 1 and p["tol"] is not None and 0 < p["tol"] < resolution)
+                                                   or (p["form"] == "exact" and p["one"] == 1))
+        ctx.ob(RID, tn.ast, ok,
+               "%s: the sum of the parsed weights is compared with 1 (tolerance %s, finer than the %g resolution of the fallback weights)" % (where, p["tol"], resolution) if ok else
+               ("%s sums a truncated copy of the weights (%s) instead of the weights: int(0.57 * 1000) is 569, so the given weights 0.57/0.43 - "
+                "which add up to one - are replaced by the fallback, while 0.5004/0.5004 (sum 1.0008) are kept and the total progress ends "
+                "above one" % (where, short(lst, 40)) if not direct else
+                "%s compares the sum of the weights with %s under the tolerance %s: that is not 'adds up to one' at a resolution finer than "
+                "the fallback weights (%g)" % (where, p["one"], p["tol"], resolution)),
+               construct="%s: sum(<given weights>) ~ 1" % where)
+        ok = bool(p["nan_safe"])
+        ctx.ob(RID, tn.ast, ok,
+               "%s: the weights are kept only when the comparison is true (a nan sum is replaced)" % where if ok else
+               "%s keeps the given weights when the comparison '%s' is false: with a nan weight every comparison is false, the weights are "
+               "kept and the reported progress is nan" % (where, short(tn.ast, 50)), construct="%s: kept side needs a true comparison" % where)
+
+
 def check_site(ctx, fn: ast.AST, where: str, replaced: List[Node], cfg: CFG, wl: Set[str]) -> Tuple[List[Tuple[Node, str]], List[Tuple[Node, str]]]:
     """R1 + R5 for one site.  ``replaced`` = CFG nodes that overwrite the given weights with the fallback."""
-    sum_tests = match.test_nodes(cfg, lambda t: (
-        ("T" if isinstance(match.compare_parts(t)[1], ast.NotEq) else "F")
-        if (match.compare_parts(t) and isinstance(match.compare_parts(t)[1], (ast.NotEq, ast.Eq))
-            and any(isinstance(x, ast.Call) and (call_name(x) in ("sum", "reduce", "functools.reduce", "math.fsum")) for x in ast.walk(t))
-            and any(isinstance(x, ast.Name) and x.id in wl for x in ast.walk(t))) else None))
+    sum_tests = match.test_nodes(cfg, lambda t: sum_not_one_side(t, wl))
     neg_tests = match.test_nodes(cfg, lambda t: negative_side(resolve_deep(fn, t) if isinstance(t, ast.Name) else t, wl))
     ctx.require(bool(replaced), "anchor missing: the fallback assignment of stage weights in %s" % where)
     # R1: a sign test exists, and on its negative side the weights are always replaced
@@ -126,11 +227,12 @@ def check_site(ctx, fn: ast.AST, where: str, replaced: List[Node], cfg: CFG, wl:
         # the replacement loop may be a 'for' (no iteration for zero stages is not a way to keep negative weights): accept when the
         # negative side enters the very branch that holds the replacement and the test is a disjunct of that branch's condition
         for iff in [a for a in source.ancestors(tn.ast) if isinstance(a, ast.If) and any(tn.ast is x for x in ast.walk(a.test))][:1]:
-            arm = iff.body if lab == "T" else iff.orelse
-            disj = iff.test is tn.ast or (isinstance(iff.test, ast.BoolOp) and isinstance(iff.test.op, ast.Or if lab == "T" else ast.And)
-                                          and any(v is tn.ast for v in iff.test.values))
-            if disj and any(rn.ast is x for rn in replaced for st_ in arm for x in ast.walk(st_)):
-                ok = True
+            # (decided on the CFG, which has already decomposed not/and/or: the negative edge of the atom leads straight into the arm)
+            for arm in (iff.body, iff.orelse):
+                if arm and any(rn.ast is x for rn in replaced for st_ in arm for x in ast.walk(st_)):
+                    first = arm[0]
+                    if any(m.ast is not None and any(m.ast is x for x in ast.walk(first)) for m in succ):
+                        ok = True
     ctx.ob("C20.R1-nonnegative-guard", neg_tests[0][0].ast if neg_tests else fn, ok,
            "%s: when some given weight is negative the weights are replaced by the fallback" % where if ok else
            "%s keeps the given stage weights whenever their (truncated) sum is one and never looks at their sign: weights -0.5 and 1.5 for "
@@ -158,13 +260,19 @@ def run(ctx) -> None:
     ctx.rule("C20.R2-replacement-total", "the replacement assigns a weight to every stage index (the same count the weights were read for)")
     ctx.rule("C20.R3-exact-complement", "in FlowIR.inject_default_values the replaced weights have the integer numerators q = int(S/n) for "
              "the first n-1 stages and S-(n-1)*q for the last one over the same scale S: they are non-negative and add up to S exactly")
-    ctx.rule("C20.R4-scale-agreement", "truncation, sum test, fallback and complement use one scale constant")
+    ctx.rule("C20.R4-scale-agreement", "fallback and complement (and a scaled sum test, if there is one) use one scale constant")
+    ctx.rule("C20.R8-sum-test-on-the-given-weights", "both normalisation sites test the sum of the parsed weights themselves against 1 - not a per-weight "
+             "truncation of them - with a tolerance finer than the resolution of the fallback weights, oriented so that a nan sum is replaced")
+    ctx.rule("C20.R9-malformed-weight-is-missing", "the conversion float(<given weight>) is enclosed by handlers for ValueError and TypeError: a weight "
+             "that is not a number is treated as missing instead of aborting the load")
+    ctx.rule("C20.R10-weights-in-stage-order", "the list the status monitor indexes by stage index is filled by a loop that runs in stage order "
+             "(sorted(...) / range(...)), not in the order the status report happens to list its stages")
     ctx.rule("C20.R5-given-weights-kept", "the given weights are replaced only under the sum test or the sign test")
     ctx.rule("C20.R6-stage-fraction", "Controller.get_stage_status returns (number of finished components) / (number of components) of one list")
     ctx.rule("C20.R7-total-is-a-weighted-sum", "CheckStatus adds fraction*weight for the stages in transit and weight for the finished ones; "
              "the two sets are selected by complementary predicates and the current stage is taken out of both")
     ctx.assume("per-stage progress reported by a user's status script is within [0, 1] (given by the property)")
-    ctx.assume("float arithmetic and int() truncation are not modelled: whether given decimals are recognised as summing to one is not decided")
+    ctx.assume("float arithmetic is not modelled: the size of the tolerance (what counts as 'one') is not decided beyond being finer than the fallback resolution")
 
     fl = ctx.repo.module(FLOWIR)
     out = ctx.repo.module(OUTPUT)
@@ -219,8 +327,9 @@ def run(ctx) -> None:
                 if isinstance(c, ast.BinOp) and isinstance(c.op, ast.Mult):
                     note("truncation int(w*S)", c, const_num(c.right) if const_num(c.right) is not None else const_num(c.left))
     for (tn, _) in sum_tests:
-        cp = match.compare_parts(tn.ast)
-        note("sum test", tn.ast, const_num(cp[2]) if const_num(cp[2]) is not None else const_num(cp[0]))
+        p_ = sum_test_parts(tn.ast, wl)
+        if p_ and p_["form"] == "exact" and p_["one"] not in (None, 1):
+            note("sum test", tn.ast, p_["one"])
     # fallback: a local assigned int(S / n) / S
     fb_names = {v.id for r in replaced for v in ast.walk(r.ast.value) if isinstance(v, ast.Name)}
     q_src = None
@@ -267,11 +376,15 @@ def run(ctx) -> None:
            "no stage receives the complement S-(n-1)*int(S/n): for stage counts that do not divide the scale the replaced weights add up "
            "to less than one, and the total progress never reaches one", construct="complement weight present", trivial=comp is not None)
     vals = {v for lst in scales.values() for (_, v) in lst}
-    ok = len(vals) == 1 and all(role in scales for role in ("truncation int(w*S)", "sum test", "fallback numerator int(S/n)", "fallback denominator"))
+    ok = len(vals) == 1 and all(role in scales for role in ("fallback numerator int(S/n)", "fallback denominator"))
     ctx.ob("C20.R4-scale-agreement", idv, ok,
-           "one scale constant (%s) in truncation, sum test, fallback and complement" % (sorted(vals)[0] if vals else "?") if ok else
+           "one scale constant (%s) in fallback and complement" % (sorted(vals)[0] if vals else "?") if ok else
            "the scale constants disagree or a role is missing: %s" % {k: sorted({v for _, v in lst}) for k, lst in scales.items()},
            construct="scale constant agreement in inject_default_values")
+
+    S = sorted(vals)[0] if len(vals) == 1 else 1000
+    check_sum_test(ctx, idv, "FlowIR.inject_default_values", sum_tests, wl, base_lists(idv), 1.0 / S)
+    check_conversion(ctx, idv, "FlowIR.inject_default_values")
 
     # ------------------------------------------------------------------ output site
     smi = out.func("StatusMonitor.__init__")
@@ -288,7 +401,25 @@ def run(ctx) -> None:
     wvar = stored[0].value.id
     repl2 = [n for n in c2.nodes if n.kind == "stmt" and isinstance(n.ast, ast.Assign) and any(
         isinstance(t, ast.Name) and t.id == wvar for t in n.ast.targets) and not (isinstance(n.ast.value, ast.List) and not n.ast.value.elts)]
-    check_site(ctx, smi, "StatusMonitor.__init__", repl2, c2, wl2)
+    st2, _ = check_site(ctx, smi, "StatusMonitor.__init__", repl2, c2, wl2)
+    check_sum_test(ctx, smi, "StatusMonitor.__init__", st2, wl2, base_lists(smi), 1.0 / S)
+    check_conversion(ctx, smi, "StatusMonitor.__init__")
+    # R10: positional list, indexed by stage index in CheckStatus
+    fill_loops = [n for n in source.walk_own(smi) if isinstance(n, ast.For) and any(
+        isinstance(c, ast.Call) and last_attr(c) == "append" and isinstance(c.func.value, ast.Name) and c.func.value.id in base_lists(smi) for c in ast.walk(n))]
+    ctx.floor("C20.R10-weights-in-stage-order", len(fill_loops), 1, "loops that fill the stage-weight list of the status monitor")
+    for lp in fill_loops:
+        it = lp.iter
+        ordered = isinstance(it, ast.Call) and call_name(it) in ("sorted", "range")
+        if ordered and call_name(it) == "sorted":
+            keys = [k.value for k in it.keywords if k.arg == "key"]
+            ordered = all("stage_index" in source.src(k) or source.src(k) == "int" for k in keys) and not any(
+                k.arg == "reverse" and not (isinstance(k.value, ast.Constant) and k.value.value is False) for k in it.keywords)
+        ctx.ob("C20.R10-weights-in-stage-order", lp, ordered,
+               "the weights are appended in stage order (%s)" % short(it, 60) if ordered else
+               "the weights are appended in the iteration order of %s while CheckStatus reads stageWeights[<stage index>]: a status report "
+               "that lists stage 1 before stage 0 (the loader appends the entries it adds, e.g. for {1: {'stage-weight': 1.0}}) gives stage 0 "
+               "the weight of stage 1" % short(it, 40), construct="stage-weight fill loop <- stage order")
     for rn in repl2:
         v = rn.ast.value
         ok = isinstance(v, ast.BinOp) and isinstance(v.op, ast.Mult) and isinstance(v.left, ast.List) and len(v.left.elts) == 1
@@ -389,6 +520,21 @@ def run(ctx) -> None:
            "a stage counts as in transit only through an active node" if ok else
            "get_stages_in_transit adds a stage without an active node: a finished stage is counted twice",
            construct="get_stages_in_transit: add <- node_is_active")
+    # the two lists are one snapshot: complementary predicates only give disjoint sets when they are evaluated on one state
+    def lock_attrs(f: ast.AST) -> Set[str]:
+        return {it.context_expr.attr for w in source.walk_own(f) if isinstance(w, ast.With) for it in w.items if isinstance(it.context_expr, ast.Attribute)}
+    shared = lock_attrs(gsf) & lock_attrs(gst)
+    sel_calls = [c for c in source.calls_in(cs, include_nested=False) if last_attr(c) in ("get_stages_in_transit", "get_stages_finished")]
+    withs = [w for w in source.walk_own(cs) if isinstance(w, ast.With) and any(
+        isinstance(it.context_expr, ast.Attribute) and it.context_expr.attr in shared for it in w.items)]
+    holder = [w for w in withs if all(any(x is c for st in w.body for x in ast.walk(st)) for c in sel_calls)]
+    ok = bool(shared) and len({last_attr(c) for c in sel_calls}) == 2 and bool(holder)
+    ctx.ob("C20.R7-total-is-a-weighted-sum", sel_calls[0] if sel_calls else cs, ok,
+           "the in-transit and the finished stages are read inside one 'with <controller>.%s' block: one snapshot" % (sorted(shared)[0] if shared else "?") if ok else
+           "the in-transit list and the finished list are not taken under one acquisition of the controller's component lock (%s): a stage "
+           "whose last component finishes between the two reads is in transit in the first list and finished in the second, it is added "
+           "as fraction*weight and again as weight, and the reported total progress exceeds one" % (", ".join(sorted(shared)) or "none shared by the getters"),
+           construct="get_stages_in_transit + get_stages_finished <- one lock acquisition")
     # the current stage is taken out of both lists
     filt = [n for n in source.walk_own(cs) if isinstance(n, ast.Assign) and isinstance(n.value, ast.ListComp) and any(
         isinstance(c, ast.Call) and last_attr(c) in ("get_stages_in_transit", "get_stages_finished") for c in ast.walk(n.value))]
